@@ -50,6 +50,7 @@ type Run struct {
 	Shard, NShards int
 	Seed           int64
 	ReplayCase     string // when set, only the case with this id is executed
+	ReplaySchedule []int  // C18: with ReplayCase, run exactly this schedule (no exploration)
 	OnlyRe         *regexp.Regexp
 	Verbose        bool
 
